@@ -1,4 +1,5 @@
 import PharmpyProofs.C20.Lemmas
+import PharmpyProofs.C20.Layout
 import PharmpyModel.C20.Spec
 /-
   C20 — Estimation results are read faithfully from NONMEM output.  Property theorems only.
@@ -15,6 +16,79 @@ theorem parse_render_cell (c : Cell) (d : Dec) (hok : cellOk c = true) (hd : cel
   intro n k m e h
   subst h
   simpa [cellOk] using hok
+
+
+/-! ## parse ∘ render -/
+
+theorem padRow_full (n : Nat) (r : List Str) (h : r.length = n) : padRow n r = r.map some := by
+  simp [padRow, h]
+
+/-- **parse ∘ render = id** for every table that fits its format (any number of columns and rows,
+    any column widths): reading the lines produced by the reference writer gives back the column
+    names and, cell by cell, the texts that were written; and every numeric cell text denotes
+    exactly the number written. -/
+theorem parse_render_table (t : RefTable) (h : t.fits = true) :
+    readFrame (renderBody t)
+        = .ok ⟨t.names, t.rows.map (fun r => r.map (fun c => some (renderCell c)))⟩
+      ∧ ∀ r ∈ t.rows, ∀ c ∈ r, ∀ d, cellDec c = some d → parseNum (renderCell c) = some d := by
+  simp only [RefTable.fits, Bool.and_eq_true, Bool.not_eq_eq_eq_not, Bool.not_true, beq_iff_eq,
+    List.all_eq_true] at h
+  obtain ⟨⟨⟨hhead, hdup⟩, hlen⟩, hrows⟩ := h
+  constructor
+  · have hne := headerOk_ne_nil _ _ hhead
+    have hlines : (renderBody t).map splitWs = t.names :: t.rows.map (fun r => r.map renderCell) := by
+      simp only [renderBody, List.map_cons, List.map_map]
+      rw [splitWs_renderHeader _ _ hhead]
+      congr 1
+      apply List.map_congr_left
+      intro r hr
+      exact splitWs_renderRow _ _ (hrows r hr).2
+    have hrowlen : ∀ r ∈ t.rows.map (fun r => r.map renderCell), r.length = t.names.length := by
+      intro r hr
+      obtain ⟨r0, hr0, rfl⟩ := List.mem_map.mp hr
+      rw [fitsRow_length _ _ (hrows r0 hr0).2, hlen]
+    have hpos : 0 < t.names.length := List.length_pos_iff.mpr hne
+    have hfilter : (t.names :: t.rows.map (fun r => r.map renderCell)).filter (fun x => !x.isEmpty)
+        = t.names :: t.rows.map (fun r => r.map renderCell) := by
+      apply List.filter_eq_self.mpr
+      intro x hx
+      rcases List.mem_cons.mp hx with hx | hx
+      · subst hx; cases hn : t.names with
+        | nil => exact absurd hn hne
+        | cons a b => rfl
+      · have := hrowlen x hx
+        cases x with
+        | nil => simp at this; omega
+        | cons a b => rfl
+    unfold readFrame
+    rw [hlines, hfilter]
+    simp only [hdup, Bool.false_eq_true, if_false]
+    cases hr : t.rows.map (fun r => r.map renderCell) with
+    | nil =>
+      have : t.rows = [] := by simpa using hr
+      simp [this]
+    | cons r0 rest =>
+      have h0 : r0.length = t.names.length := hrowlen r0 (by rw [hr]; simp)
+      have hany : (r0 :: rest).any (fun r => decide (r.length > t.names.length)) = false := by
+        apply List.any_eq_false.mpr
+        intro r hr'
+        have := hrowlen r (by rw [hr]; exact hr')
+        simp [this]
+      simp only [h0, gt_iff_lt, Nat.lt_irrefl, if_false]
+      rw [show ((r0 :: rest).any fun r => decide (t.names.length < r.length)) = false from hany]
+      simp only [Bool.false_eq_true, if_false]
+      congr 2
+      rw [← hr, List.map_map]
+      apply List.map_congr_left
+      intro r hr'
+      have hl : (r.map renderCell).length = t.names.length :=
+        hrowlen _ (List.mem_map.mpr ⟨r, hr', rfl⟩)
+      simp only [Function.comp]
+      rw [padRow_full _ _ hl, List.map_map]
+      rfl
+  · intro r hr c hc d hd
+    have hok : cellOk c = true := (hrows r hr).1 c hc
+    exact parse_render_cell c d hok hd
 
 /-- The special ITERATION codes, getters, fallbacks and post-processing that table.py's ExtTable
     properties use (regenerated from the source on every run) are the documented ones. -/
